@@ -9,6 +9,7 @@ Part B (runQueue): for every queue snapshot, every outcome of the unstable prior
 iteration order `keys` of the unalloc map.
 -/
 import ArvVerif.Proofs.C16
+import ArvVerif.Proofs.C16_Complete
 import ArvVerif.Proofs.C16_RunQueue
 namespace ArvVerif.C16
 
@@ -114,6 +115,23 @@ theorem C16_allowed (table order avail : List IType) (reserve : Int) (c : Ctr) (
     have h1 := hmin y (hperm.mem_iff.mpr hy) hay
     have h2 := hle it (hperm.mem_iff.mp hmem) had
     exact hdom y (hperm.mem_iff.mpr hy) hay (by omega)
+
+/-- The set `allowed` is exact: each of its members is what the loop returns for some iteration
+order of the table (so the comparison "implementation result ∈ allowed" is as tight as the map
+order permits). -/
+theorem C16_allowed_exact (table : List IType) (reserve : Int) (c : Ctr) (x : IType)
+    (hnn : ∀ y ∈ table, 0 ≤ y.ram ∧ 0 ≤ y.vcpus) (hx : x ∈ allowed (needOf reserve c) table) :
+    ∃ order, order.Perm table ∧ ∀ avail, chooseWith order avail reserve c = .ok x := by
+  obtain ⟨order, hp, hl⟩ := allowed_complete (needOf reserve c) table x hnn hx
+  refine ⟨order, hp, fun avail => ?_⟩
+  unfold chooseWith
+  have hlen : ¬ order.length = 0 := by
+    intro h0
+    have : order = [] := List.eq_nil_of_length_eq_zero h0
+    subst this
+    cases hl
+  rw [if_neg hlen, hl]
+  rfl
 
 /-- **Unsatisfiable / not configured.** An empty table gives ErrInstanceTypesNotConfigured. If no
 configured type satisfies the constraints the result is the error carrying *all* configured types in
@@ -350,7 +368,7 @@ def exEnts : List Ent :=
     { uuid := 2, prio := 4, st := .locked, ty := 0, running := false },
     { uuid := 3, prio := 3, st := .queued, ty := 0, running := false } ]
 def exStub : Stub :=
-  { quota := 1, canCreate := 9, created := 0, idle := fun _ => 1, mode := fun _ => .byIdle,
+  { quota := 1, canCreate := 9, created := 0, idle := fun _ => 1, starts := fun _ => 0, mode := fun _ => .byIdle,
     lingering := fun _ => false }
 
 example : IsSorted exEnts.reverse exEnts := ⟨by decide, by decide⟩
